@@ -16,4 +16,19 @@ def leOpt (a b : Option Rat) : Bool :=
   | some x, some y => decide (x ≤ y)
   | _, _ => true
 
+/-! ### Two clocks (round 3)
+
+A module may be given its own timestep.  Its step index (`self.ti`) and the simulation's (`sim.ti`) are then different
+clocks.  The simulation's index advances at the END of each simulation step, so a module that makes `r ≥ 1` steps per
+simulation step sees the simulation index `0` during its step `0` and the index `k ≥ 1` during its steps
+`r(k-1)+1 … rk`; a module that makes one step every `c ≥ 1` simulation steps makes its step `j` while the simulation is
+at step `c·j`.  (Both relations are compared with the real loop on every run: driver ops `finer` / `coarser`.) -/
+
+/-- first and last module step index seen while the simulation index is `k` (module `r` times finer) -/
+def moduleIndexRange (r k : Nat) : Nat × Nat :=
+  if k = 0 then (0, 0) else (r * (k - 1) + 1, r * k)
+
+/-- simulation index during step `j` of a module `c` times coarser than the simulation -/
+def simIndexCoarse (c j : Nat) : Nat := c * j
+
 end StarsimModel.TimerOps
